@@ -12,13 +12,13 @@ CHECKS = {
     "C08": dict(
         engine="kvc", category="proof", design_ref="DESIGN.md §2, §6 C08",
         technique="deductive verification: loop-invariant VCs generated from the real kernel source, discharged by z3/cvc5",
-        text="Every obligation generated from the current set_operations.pyx (loop invariants initial/preserved, postconditions of the three two-way merge kernels and of the None-convention wrappers, call-site preconditions) is discharged for all array lengths and contents with no bound; a failed obligation is replayed on the real compiled kernel (counter-model or small-scope witness search).",
+        text="Every obligation generated from the current set_operations.pyx (loop invariants initial/preserved, postconditions of the three two-way merge kernels, of the None-convention wrappers and of the multi-way union set_union_merge_many with its nested loops, call-site preconditions; 932 obligations) is discharged for all array lengths, contents and numbers of arrays with no bound; a failed obligation is replayed on the real compiled kernel (counter-model or small-scope witness search). The multi-way union is additionally run on every list of <= 3 arrays over a 5-value universe (this bounded part covers the filtering of empty arrays and the empty list, which the proof takes as given).",
         note="Trusted: Cython codegen/gcc/NumPy internals, the .pyx normaliser (cross-checked against Cython's parser every run), NumPy library axioms (probed), clause-language renderers (self-checked), solver soundness; len < 2**31 as documented by the kernels.",
     ),
     "C09": dict(
         engine="kvc", category="proof", design_ref="DESIGN.md §2, §6 C09",
         technique="deductive verification: in-bounds / no-overflow VC per memoryview subscript and C-int expression, z3",
-        text="Under the length limit only (no sortedness assumed), every typed-memoryview subscript of the three two-way kernels is proved in bounds and every C int expression free of overflow, for all inputs including empty operands; counter-models are replayed on a bounds-checked rebuild of the same .pyx.",
+        text="Under the length limit only (no sortedness assumed), every typed-memoryview subscript of the three two-way kernels and of the multi-way union (pointer, limit, value and output arrays; the output write is bounded through the summation lemmas psum/seg_ok whose induction steps are discharged) is proved in bounds and every C int expression free of overflow, for all inputs including empty operands; 552 obligations; counter-models are replayed on a bounds-checked rebuild of the same .pyx.",
         note="Trusted: a memoryview of shape[0]=n addresses n allocated elements; Cython codegen, gcc; normaliser; solver soundness. Nothing is run under ASan: safety is a theorem about the source text.",
     ),
     "C19": dict(
